@@ -10,7 +10,7 @@ LEVEL_TEXT = (
     "some candidate covers it; a multi-UTxO input gets a subset of the candidates whose sum covers min_amount "
     "in every class and gets one whenever the candidates together cover it; every bound UTxO is in the store, "
     "at the from-address, among the refs, not taken before, and pure lovelace for collateral; the window "
-    "always contains the intersection and contains the union when the padding fits. Tied to the code by "
+    "always contains the intersection and contains the union when the padding fits; with several blocks, a block whose window holds nothing the earlier ones took is selected exactly as it would be alone, for every oracle (C03_independent_block, C03_two_independent_blocks). Tied to the code by "
     "exhaustive small-scope enumeration (all stores of <=2, thorough <=3, UTxOs x the property's query grid) "
     "and random stores up to 80 UTxOs on the real inputs::resolve."
 )
@@ -21,14 +21,14 @@ LEVEL_NOTE = (
     "The float-based ranking is abstracted as an arbitrary order, which is what makes the theorems independent of it."
 )
 PROP = "C03"
-LEAN_TARGETS = ["Tx3Proofs.C03"]
-AUDIT_MODULES = ["Tx3Proofs.C03"]
+LEAN_TARGETS = ["Tx3Proofs.C03", "Tx3Proofs.C03Independent"]
+AUDIT_MODULES = ["Tx3Proofs.C03", "Tx3Proofs.C03Independent"]
 THEOREMS = [
     "Tx3.C03_single_sound", "Tx3.C03_single_complete",
     "Tx3.pickManyLoop_inv", "Tx3.pickManyLoop_skipped", "Tx3.removeExcess_inv",
     "Tx3.C03_many_sound", "Tx3.C03_many_complete",
     "Tx3.C03_select_sound", "Tx3.C03_take_complete",
-]
+    "Tx3.C03_independent_block", "Tx3.C03_two_independent_blocks"]
 
 RULE = (
     "cases = (store, query list) run through the real inputs::resolve with an in-memory store: corpus; "
